@@ -50,8 +50,11 @@ if __name__ == "__main__":
             if isinstance(res, str):
                 print(f"{seed:8s} {res} {err}")
                 continue
-            caught = [p for p, v, _ in res if v == "CAUGHT"]
+            caught = {p: (u.split()[1] if u else "?") for p, v, u in res if v == "CAUGHT"}
             print(f"{seed:8s} " + "; ".join(f"{p}:{v}" + (f" [{u}]" if u else "") for p, v, u in res if v != "missed" or len(res) == 1))
             summary[seed] = caught
     print(f"{sum(1 for v in summary.values() if v)}/{len(summary)} seeds caught by at least one check")
-    json.dump(summary, open(os.path.join(VERIF, "seeded", "RESULTS.json"), "w"), indent=1, sort_keys=True)
+    if "--all" in sys.argv and not only:
+        json.dump(summary, open(os.path.join(VERIF, "seeded", "RESULTS.json"), "w"), indent=1, sort_keys=True)
+        if "--write-expect" in sys.argv:
+            json.dump({k: {"caught_by": v} for k, v in summary.items()}, open(os.path.join(VERIF, "seeded", "EXPECT.json"), "w"), indent=1, sort_keys=True)
